@@ -11,8 +11,9 @@ type PubkeyCache struct {
 	// The count up until the conflicting validator index (cause of the pubkey cache fork).
 	trustedParentCount ValidatorIndex
 	pub2idx            map[BLSPubkey]ValidatorIndex
-	// starting at trustedParentCount
-	idx2pub []CachedPubkey
+	// starting at trustedParentCount. Pointers: the entries are handed out by Pubkey() and must stay valid
+	// (and must not be copied) when the slice grows.
+	idx2pub []*CachedPubkey
 	// Can have many reads concurrently, but only 1 write.
 	rwLock sync.RWMutex
 }
@@ -26,7 +27,7 @@ func NewPubkeyCache(vals ValidatorRegistry) (*PubkeyCache, error) {
 		parent:             nil,
 		trustedParentCount: 0,
 		pub2idx:            make(map[BLSPubkey]ValidatorIndex),
-		idx2pub:            make([]CachedPubkey, 0),
+		idx2pub:            make([]*CachedPubkey, 0),
 	}
 	currentCount := uint64(len(pc.idx2pub))
 	for i := currentCount; i < valCount; i++ {
@@ -40,7 +41,7 @@ func NewPubkeyCache(vals ValidatorRegistry) (*PubkeyCache, error) {
 			return nil, err
 		}
 		pc.pub2idx[pub] = idx
-		pc.idx2pub = append(pc.idx2pub, CachedPubkey{Compressed: pub})
+		pc.idx2pub = append(pc.idx2pub, &CachedPubkey{Compressed: pub})
 	}
 	return pc, nil
 }
@@ -50,7 +51,7 @@ func EmptyPubkeyCache() *PubkeyCache {
 		parent:             nil,
 		trustedParentCount: 0,
 		pub2idx:            make(map[BLSPubkey]ValidatorIndex),
-		idx2pub:            make([]CachedPubkey, 0),
+		idx2pub:            make([]*CachedPubkey, 0),
 	}
 }
 
@@ -69,7 +70,7 @@ func (pc *PubkeyCache) unsafePubkey(index ValidatorIndex) (pub *CachedPubkey, ok
 		if index >= pc.trustedParentCount+ValidatorIndex(len(pc.idx2pub)) {
 			return nil, false
 		}
-		return &pc.idx2pub[index-pc.trustedParentCount], true
+		return pc.idx2pub[index-pc.trustedParentCount], true
 	} else if pc.parent != nil {
 		return pc.parent.Pubkey(index)
 	} else {
@@ -114,7 +115,7 @@ func (pc *PubkeyCache) AddValidator(index ValidatorIndex, pub BLSPubkey) (*Pubke
 				// fork out the existing index, only trust the history
 				trustedParentCount: existingIndex,
 				pub2idx:            make(map[BLSPubkey]ValidatorIndex),
-				idx2pub:            make([]CachedPubkey, 0),
+				idx2pub:            make([]*CachedPubkey, 0),
 			}
 			// Do not have to unlock this cache (parent of forkedPc) early, as the forkedPc is guaranteed to handle it.
 			return forkedPc.AddValidator(index, pub)
@@ -127,7 +128,7 @@ func (pc *PubkeyCache) AddValidator(index ValidatorIndex, pub BLSPubkey) (*Pubke
 					// fork out the existing index, only trust the history
 					trustedParentCount: index,
 					pub2idx:            make(map[BLSPubkey]ValidatorIndex),
-					idx2pub:            make([]CachedPubkey, 0),
+					idx2pub:            make([]*CachedPubkey, 0),
 				}
 				// Do not have to unlock this cache (parent of forkedPc) early, as the forkedPc is guaranteed to handle it.
 				return forkedPc.AddValidator(index, pub)
@@ -144,7 +145,7 @@ func (pc *PubkeyCache) AddValidator(index ValidatorIndex, pub BLSPubkey) (*Pubke
 				// fork out the existing index, only trust the history
 				trustedParentCount: index,
 				pub2idx:            make(map[BLSPubkey]ValidatorIndex),
-				idx2pub:            make([]CachedPubkey, 0),
+				idx2pub:            make([]*CachedPubkey, 0),
 			}
 			// Do not have to unlock this cache (parent of forkedPc) early, as the forkedPc is guaranteed to handle it.
 			return forkedPc.AddValidator(index, pub)
@@ -156,7 +157,7 @@ func (pc *PubkeyCache) AddValidator(index ValidatorIndex, pub BLSPubkey) (*Pubke
 		// index is unknown, but too far ahead of cache; in between indices are missing.
 		return nil, fmt.Errorf("AddValidator is incorrect, missing earlier index. got: (%d, %x), but currently expecting %d next", index, pub, expected)
 	}
-	pc.idx2pub = append(pc.idx2pub, CachedPubkey{Compressed: pub})
+	pc.idx2pub = append(pc.idx2pub, &CachedPubkey{Compressed: pub})
 	pc.pub2idx[pub] = index
 	return pc, nil
 }
